@@ -432,6 +432,12 @@ func evalConstructorDeclareStmt(vm *r.VM, node *syntax.FunctionDeclareStmt) erro
 		vm.PopCallFrame()
 		return instance, nil
 	}
+	// a type exported by a library belongs to the process, not to this execution: the new
+	// constructor is kept by the VM, so that other executions still get the library's own
+	if module != nil && r.ParseLibName(module.GetName()).LibType == r.LIB_TYPE_STD {
+		vm.SetConstructorOf(cmodel, constructorLogic)
+		return nil
+	}
 	cmodel.SetConstructor(constructorLogic)
 
 	return nil
@@ -459,6 +465,12 @@ func evalNewObject(vm *r.VM, node *syntax.ObjNewExpr) (r.Element, error) {
 		return nil, err
 	}
 
+	// the constructor this execution has given to a library's type
+	if cmodel, ok := importVal.(*value.ClassModel); ok {
+		if fn, ok := vm.GetConstructorOf(cmodel); ok {
+			return fn(value.NewObject(cmodel, r.ElementMap{}), cParams)
+		}
+	}
 	return constructRef.Construct(cParams)
 }
 
